@@ -30,7 +30,12 @@ func cpCmpLits(f *file, fd *ast.FuncDecl, lhs string, op token.Token) []int64 {
 	}
 	ast.Inspect(fd, func(n ast.Node) bool {
 		be, ok := n.(*ast.BinaryExpr)
-		if !ok || be.Op != op || exprStr(f.fset, be.X) != lhs {
+		if !ok || exprStr(f.fset, be.X) != lhs {
+			return true
+		}
+		// fallback reading: `==` counts for `!=` and vice versa (complementary test of an if/else or
+		// early return with swapped branches)
+		if be.Op != op && !(expandHelpers && ((op == token.NEQ && be.Op == token.EQL) || (op == token.EQL && be.Op == token.NEQ))) {
 			return true
 		}
 		if v, ok := intLit(be.Y); ok {
